@@ -335,10 +335,10 @@ impl<T: Debug + Eq + PartialEq + Clone + Default> TaggedLine<T> {
             flat(r.v@) =~= flat_str(s@, *tag), //@w @C08 @C03 #from_string_content
     {
         let len = UnicodeWidthStr::width(s.as_str());
-        proof { //@w[
-            assert forall|v: Seq<TaggedLineElement<T>>| v.len() == 1 implies #[trigger] flat(v) =~= flat_elt(v[0]) by { assert(v =~= seq![v[0]]); lemma_flat_one(v[0]); }
-            assert forall|v: Seq<TaggedLineElement<T>>| v.len() == 1 implies #[trigger] cwid(v) == ew(v[0]) by { assert(v =~= seq![v[0]]); lemma_flat_one(v[0]); }
-        } //@w]
+        proof { //@w
+            assert forall|v: Seq<TaggedLineElement<T>>| v.len() == 1 implies #[trigger] flat(v) =~= flat_elt(v[0]) by { assert(v =~= seq![v[0]]); lemma_flat_one(v[0]); } //@w
+            assert forall|v: Seq<TaggedLineElement<T>>| v.len() == 1 implies #[trigger] cwid(v) == ew(v[0]) by { assert(v =~= seq![v[0]]); lemma_flat_one(v[0]); } //@w
+        } //@w
         TaggedLine {
             v: vec![TaggedLineElement::Str(TaggedString {
                 s,
@@ -696,6 +696,69 @@ proof fn lemma_off_end(s: Seq<char>, k: int)
 #[verifier::opaque]
 spec fn keeps_all<T>(t0: Seq<TaggedLine<T>>, l0: Seq<TaggedLineElement<T>>, w0: Seq<TaggedLineElement<T>>, t1: Seq<TaggedLine<T>>, l1: Seq<TaggedLineElement<T>>, w1: Seq<TaggedLineElement<T>>) -> bool {
     content(t1, l1) + ns(flat(w1)) =~= content(t0, l0) + ns(flat(w0))
+}
+// ---- L2 of add_text: which characters reach the block, in which order, under which tag (C03, C09, C16) -------------------
+// R13: `c.is_whitespace()` -> char_is_ws(c) (trusted name for core's char::is_whitespace, so that it has a spec-level counterpart)
+pub uninterp spec fn is_ws(c: char) -> bool;
+#[verifier::external_body] pub proof fn axiom_space_is_ws() ensures is_ws(' ') {}
+#[verifier::external_body] fn char_is_ws(c: char) -> (r: bool) ensures r == is_ws(c) { c.is_whitespace() }
+// the characters of the input that are kept: everything except white space and characters without a display width (controls)
+spec fn keepc(c: char) -> bool { !is_ws(c) && cw(c).is_some() }
+spec fn kept(s: Seq<char>) -> Seq<char> decreases s.len() { if s.len() == 0 { Seq::empty() } else if keepc(s.last()) { kept(s.drop_last()).push(s.last()) } else { kept(s.drop_last()) } }
+proof fn lemma_kept_step(s: Seq<char>, i: int)
+    requires 0 <= i < s.len(),
+    ensures kept(s.take(i + 1)) =~= (if keepc(s[i]) { kept(s.take(i)).push(s[i]) } else { kept(s.take(i)) }),
+{ assert(s.take(i + 1).drop_last() =~= s.take(i)); assert(s.take(i + 1).last() == s[i]); }
+// all non-space content of a block: finished lines, current line, and the word being built
+spec fn all_ns<T>(t: Seq<TaggedLine<T>>, l: Seq<TaggedLineElement<T>>, w: Seq<TaggedLineElement<T>>) -> Seq<CItem<T>> { content(t, l) + ns(flat(w)) }
+// S is the characters cs, in order, each tagged with one of the two tags handed to add_text
+spec fn tagged_by<T>(S: Seq<CItem<T>>, cs: Seq<char>, t1: T, t2: T) -> bool {
+    S.len() == cs.len() && forall|i: int| 0 <= i < S.len() ==> ((#[trigger] S[i]) matches CItem::Ch(c, t) && c == cs[i] && (t == t1 || t == t2))
+}
+#[verifier::opaque]
+spec fn l2<T>(t0: Seq<TaggedLine<T>>, l0: Seq<TaggedLineElement<T>>, w0: Seq<TaggedLineElement<T>>, t1: Seq<TaggedLine<T>>, l1: Seq<TaggedLineElement<T>>, w1: Seq<TaggedLineElement<T>>,
+             acc: Seq<CItem<T>>, cs: Seq<char>, m: T, w: T) -> bool {
+    all_ns(t1, l1, w1) =~= all_ns(t0, l0, w0) + acc && tagged_by(acc, cs, m, w)
+}
+// all_ns(after) == all_ns(before) ++ acc for some acc that is the characters cs, in order, tagged m or w
+spec fn appended<T>(t0: Seq<TaggedLine<T>>, l0: Seq<TaggedLineElement<T>>, w0: Seq<TaggedLineElement<T>>, t1: Seq<TaggedLine<T>>, l1: Seq<TaggedLineElement<T>>, w1: Seq<TaggedLineElement<T>>,
+                   cs: Seq<char>, m: T, w: T) -> bool {
+    exists|acc: Seq<CItem<T>>| #[trigger] l2(t0, l0, w0, t1, l1, w1, acc, cs, m, w)
+}
+proof fn lemma_l2_init<T>(t: Seq<TaggedLine<T>>, l: Seq<TaggedLineElement<T>>, w: Seq<TaggedLineElement<T>>, m: T, wt: T)
+    ensures l2(t, l, w, t, l, w, Seq::<CItem<T>>::empty(), Seq::<char>::empty(), m, wt),
+{ reveal(l2); }
+proof fn lemma_l2_keeps<T>(t0: Seq<TaggedLine<T>>, l0: Seq<TaggedLineElement<T>>, w0: Seq<TaggedLineElement<T>>, ta: Seq<TaggedLine<T>>, la: Seq<TaggedLineElement<T>>, wa: Seq<TaggedLineElement<T>>,
+        tb: Seq<TaggedLine<T>>, lb: Seq<TaggedLineElement<T>>, wb: Seq<TaggedLineElement<T>>, acc: Seq<CItem<T>>, cs: Seq<char>, m: T, w: T)
+    requires l2(t0, l0, w0, ta, la, wa, acc, cs, m, w), keeps_all(ta, la, wa, tb, lb, wb),
+    ensures l2(t0, l0, w0, tb, lb, wb, acc, cs, m, w),
+{ reveal(l2); reveal(keeps_all); }
+proof fn lemma_l2_line<T>(t0: Seq<TaggedLine<T>>, l0: Seq<TaggedLineElement<T>>, w0: Seq<TaggedLineElement<T>>, ta: Seq<TaggedLine<T>>, la: Seq<TaggedLineElement<T>>,
+        tb: Seq<TaggedLine<T>>, lb: Seq<TaggedLineElement<T>>, wv: Seq<TaggedLineElement<T>>, acc: Seq<CItem<T>>, cs: Seq<char>, m: T, w: T)
+    requires l2(t0, l0, w0, ta, la, wv, acc, cs, m, w), content(tb, lb) =~= content(ta, la),
+    ensures l2(t0, l0, w0, tb, lb, wv, acc, cs, m, w),
+{ reveal(l2); }
+proof fn lemma_l2_space<T>(t0: Seq<TaggedLine<T>>, l0: Seq<TaggedLineElement<T>>, w0: Seq<TaggedLineElement<T>>, t: Seq<TaggedLine<T>>, la: Seq<TaggedLineElement<T>>,
+        lb: Seq<TaggedLineElement<T>>, wv: Seq<TaggedLineElement<T>>, tg: T, acc: Seq<CItem<T>>, cs: Seq<char>, m: T, w: T)
+    requires l2(t0, l0, w0, t, la, wv, acc, cs, m, w), flat(lb) =~= flat(la).push(CItem::Ch(' ', tg)),
+    ensures l2(t0, l0, w0, t, lb, wv, acc, cs, m, w),
+{
+    reveal(l2);
+    let extra = seq![CItem::Ch(' ', tg)];
+    assert(flat(lb) =~= flat(la) + extra);
+    lemma_content_append(t, la, lb, extra);
+    assert(extra.drop_last() =~= Seq::<CItem<T>>::empty());
+    assert(ns(extra) =~= Seq::<CItem<T>>::empty());
+}
+proof fn lemma_l2_char<T>(t0: Seq<TaggedLine<T>>, l0: Seq<TaggedLineElement<T>>, w0: Seq<TaggedLineElement<T>>, t: Seq<TaggedLine<T>>, l: Seq<TaggedLineElement<T>>,
+        wa: Seq<TaggedLineElement<T>>, wb: Seq<TaggedLineElement<T>>, c: char, tg: T, acc: Seq<CItem<T>>, cs: Seq<char>, m: T, w: T)
+    requires l2(t0, l0, w0, t, l, wa, acc, cs, m, w), flat(wb) =~= flat(wa).push(CItem::Ch(c, tg)), c != ' ', tg == m || tg == w,
+    ensures l2(t0, l0, w0, t, l, wb, acc.push(CItem::Ch(c, tg)), cs.push(c), m, w),
+{
+    reveal(l2);
+    assert(flat(wb).drop_last() =~= flat(wa));
+    assert(ns(flat(wb)) =~= ns(flat(wa)).push(CItem::Ch(c, tg)));
+    assert(all_ns(t, l, wb) =~= all_ns(t, l, wa).push(CItem::Ch(c, tg)));
 }
 // a line fits (C02): at most `width` columns; with overflow allowed the only wider line is a single over-wide character (C11)
 spec fn fits<T>(l: TaggedLine<T>, width: usize, allow: bool) -> bool { l.len <= width || (allow && l.len <= 2) }
@@ -1175,6 +1238,7 @@ impl<T: Clone + Eq + Debug + Default> WrappedBlock<T> {
 //@item src/render/text_renderer.rs :: impl WrappedBlock :: fn add_text
 //@sub /\) -> Result<\(\)>/ ==> ) -> (r: Result<()>)
 //@sub /for c in text\.chars\(\)/ ==> for c in it: text.chars()
+//@sub 2 /c\.is_whitespace\(\)/ ==> char_is_ws(c)
 //@auto C01 C02 C12
     #[verifier::loop_isolation(false)] //@w
     #[verifier::rlimit(250)] //@w
@@ -1197,6 +1261,10 @@ impl<T: Clone + Eq + Debug + Default> WrappedBlock<T> {
             old(self).allow_overflow ==> r.is_ok(), //@w @C11 #at_overflow_ok
             final(self).text@.len() >= old(self).text@.len(), final(self).text@.take(old(self).text@.len() as int) =~= old(self).text@, //@w @C03 #at_keeps_emitted_lines
             final(self).total() <= old(self).total() + 4 * text@.len(), //@w @C01 #at_growth_bound
+            // L2 (C03, C09, C16): the block gains exactly the kept characters of `text` (everything but white space and characters //@w
+            // without a display width), in order, after what it already held, each tagged with main_tag or wrap_tag; nothing is lost, //@w
+            // duplicated or reordered by wrapping //@w
+            r.is_ok() ==> appended(old(self).text@, old(self).line.v@, old(self).word.v@, final(self).text@, final(self).line.v@, final(self).word.v@, kept(text@), *main_tag, *wrap_tag), //@w @C03 @C09 @C16 #text_appended_in_order_tagged
     {
         hide(sw); hide(cwid); hide(off); hide(flat); hide(flat_str); hide(flat_elt); hide(spaces); hide(lines_wf); hide(lines_fit); hide(ns); hide(lines_flat); hide(no_str); //@w
         html_trace!("WrappedBlock::add_text({}), {:?}", text, main_tag);
@@ -1209,8 +1277,13 @@ impl<T: Clone + Eq + Debug + Default> WrappedBlock<T> {
         // 2b. If we get to more whitespace, output the first whitespace and the word
         //     and continue.
         let mut tag = if self.pre_wrapped { wrap_tag } else { main_tag };
+        let ghost mut acc: Seq<CItem<T>> = Seq::empty(); //@w
+        let ghost mut cs: Seq<char> = Seq::empty(); //@w
+        proof { lemma_l2_init(self.text@, self.line.v@, self.word.v@, *main_tag, *wrap_tag); assert(text@.take(0) =~= Seq::<char>::empty()); } //@w
         for c in it: text.chars()
             invariant //@w
+                *tag == *main_tag || *tag == *wrap_tag, cs == kept(text@.take(it.index@)), //@w
+                l2(old(self).text@, old(self).line.v@, old(self).word.v@, self.text@, self.line.v@, self.word.v@, acc, cs, *main_tag, *wrap_tag), //@w
                 self.inv(), tag_ok::<T>(), self.frame(old(self)), self.width >= 1, //@w
                 self.wslen + self.wordlen + self.width + self.word.len + 4 * (text@.len() - it.index@) <= 0x4000_0000_0000_0000, //@w
                 self.total() + 4 * (text@.len() - it.index@) <= old(self).total() + 4 * text@.len(), //@w
@@ -1225,12 +1298,15 @@ impl<T: Clone + Eq + Debug + Default> WrappedBlock<T> {
                 self.wslen,
                 self.line
             );
-            if c.is_whitespace() && self.wordlen > 0 {
+            assert(c == text@[it.index@]); //@w
+            let ghost pre = *self; //@w
+            if char_is_ws(c) && self.wordlen > 0 {
                 self.flush_word(ws_mode)?;
+                proof { lemma_l2_keeps(old(self).text@, old(self).line.v@, old(self).word.v@, pre.text@, pre.line.v@, pre.word.v@, self.text@, self.line.v@, self.word.v@, acc, cs, *main_tag, *wrap_tag); } //@w
             }
             let ghost mid = *self; //@w
 
-            if c.is_whitespace() {
+            if char_is_ws(c) {
                 // We're just building up whitespace.
                 if ws_mode.preserve_whitespace() {
                     match c {
@@ -1238,6 +1314,7 @@ impl<T: Clone + Eq + Debug + Default> WrappedBlock<T> {
                             // End of line.  We have no words here, so just finish
                             // the line.
                             self.force_flush_line();
+                            proof { lemma_l2_line(old(self).text@, old(self).line.v@, old(self).word.v@, mid.text@, mid.line.v@, self.text@, self.line.v@, self.word.v@, acc, cs, *main_tag, *wrap_tag); } //@w
                             self.wslen = 0;
                             self.spacetag = None;
                             self.pre_wrapped = false;
@@ -1255,6 +1332,7 @@ impl<T: Clone + Eq + Debug + Default> WrappedBlock<T> {
                             let ghost pos0 = pos; //@w
                             while pos % tab_stop != 0 || !at_least_one_space
                                 invariant //@w
+                                    l2(old(self).text@, old(self).line.v@, old(self).word.v@, self.text@, self.line.v@, self.word.v@, acc, cs, *main_tag, *wrap_tag), //@w
                                     self.inv(), tag_ok::<T>(), self.frame(old(self)), self.width >= 1, //@w
                                     self.text@.len() >= old(self).text@.len(), self.text@.take(old(self).text@.len() as int) =~= old(self).text@, //@w
                                     self.line.len <= pos, pos <= 0x4000_0000_0000_0000, tab_stop == 8, //@w
@@ -1267,13 +1345,16 @@ impl<T: Clone + Eq + Debug + Default> WrappedBlock<T> {
                                     (if !at_least_one_space && pos >= self.width { 1int } else { 0int }), //@w
                                     (if pos % 8 == 0 { 0int } else { 8 - pos % 8 }), //@w
                             {
+                                let ghost tb = *self; //@w
                                 if pos >= self.width {
                                     self.flush_line();
+                                    proof { lemma_l2_line(old(self).text@, old(self).line.v@, old(self).word.v@, tb.text@, tb.line.v@, self.text@, self.line.v@, self.word.v@, acc, cs, *main_tag, *wrap_tag); } //@w
                                     pos = 0;
                                     proof { wrapped = true; } //@w
                                 } else {
                                     proof { axiom_cw_space(); } //@w
                                     self.line.push_char(' ', tag);
+                                    proof { lemma_l2_space(old(self).text@, old(self).line.v@, old(self).word.v@, tb.text@, tb.line.v@, self.line.v@, self.word.v@, *tag, acc, cs, *main_tag, *wrap_tag); } //@w
                                     pos += 1;
                                     at_least_one_space = true;
                                 }
@@ -1291,6 +1372,7 @@ impl<T: Clone + Eq + Debug + Default> WrappedBlock<T> {
                                     self.wslen = 0;
 
                                     self.flush_line();
+                                    proof { lemma_l2_line(old(self).text@, old(self).line.v@, old(self).word.v@, mid.text@, mid.line.v@, self.text@, self.line.v@, self.word.v@, acc, cs, *main_tag, *wrap_tag); } //@w
                                     if ws_mode.do_wrap() {
                                         // We're handling wrapping, so collapse
                                         self.pre_wrapped = false;
@@ -1333,9 +1415,17 @@ impl<T: Clone + Eq + Debug + Default> WrappedBlock<T> {
                         tag = wrap_tag;
                     }
                     self.word.push_char(c, tag);
+                    proof { //@w[
+                        axiom_space_is_ws();
+                        lemma_l2_char(old(self).text@, old(self).line.v@, old(self).word.v@, mid.text@, mid.line.v@, mid.word.v@, self.word.v@, c, *tag, acc, cs, *main_tag, *wrap_tag);
+                        acc = acc.push(CItem::Ch(c, *tag));
+                        cs = cs.push(c);
+                    } //@w]
                 }
             }
+            proof { lemma_kept_step(text@, it.index@); } //@w
         }
+        proof { assert(text@.take(text@.len() as int) =~= text@); } //@w
         Ok(())
     }
 //@end
